@@ -12,7 +12,7 @@ LEVEL = "exploration"
 RULE = ("for model configuration classes (tags per predicate class x rated power x refused-block subsets x battery) and random / "
         "sentinel / boundary register contents: read_device_info(), bulk = read_runtime_data(), then read_sensor(id) for EVERY id "
         "of sensors() on the unchanged register file of a simulated inverter (UDP and TCP); plus histories in which capabilities "
-        "change between the calls (battery appears / disappears, a block becomes refused or served, read_device_info() re-run): "
+        "change between the calls (battery appears / disappears, a block becomes refused or - after refused single reads - served, read_device_info() re-run; settings of the same id read before the sensor): "
         "after each change every listed id is read again; distinct = distinct (family, configuration, history step, content style)")
 ASSUMPTIONS = ["equality is NaN-aware; where the bulk read reports None the single read may return None or raise ValueError",
                "ids listed twice in a table (ET meter_e_total_exp/imp: float and 8-byte variants) resolve to the later definition in "
